@@ -41,6 +41,7 @@ structure CSt where
   onev : List (Nat × Nat) := []
   conns : List SConn := []
   accs : List SAcc := []
+  corrFail : Option String := none     -- first correspondence failure (the scan goes on looking for a property failure)
   tags : List String := []
 
 def lookup {α} (l : List (Nat × α)) (k : Nat) : Option α := (l.find? (·.1 = k)).map (·.2)
@@ -81,7 +82,7 @@ def CSt.markDestroyed (c : CSt) (j : Nat) : CSt :=
   | none => c
 
 partial def go (c : CSt) : List String → Verdict
-  | [] => { tags := c.tags }
+  | [] => match c.corrFail with | some m => Verdict.corr m c.tags | none => { tags := c.tags }
   | l :: rest =>
     let w := words l
     if w.isEmpty then go c rest else
@@ -213,11 +214,14 @@ partial def go (c : CSt) : List String → Verdict
           let wroteModel : Bool := match task with | some (_, .writable) => true | _ => false
           let wroteModelOrd := match task with | some (k, .writable) => c.ordOf k.id | _ => 0
           let wroteImpl := match sys with | [["sys", "send", i, _, _]] => some (i.toNat?.getD 0) | _ => none
-          if newEvents ≠ gotEvents then
-            Verdict.corr s!"after '{l}': handler calls impl {gotEvents} model {newEvents}" c.tags
-          else if wroteModel != wroteImpl.isSome || (wroteModel && wroteImpl != some wroteModelOrd) then
-            Verdict.corr s!"after '{l}': writable task impl {repr wroteImpl} model {wroteModel} (socket {wroteModelOrd})" c.tags
-          else
+          let corr : Option String :=
+            if newEvents ≠ gotEvents then
+              some s!"after '{l}': handler calls impl {gotEvents} model {newEvents}"
+            else if wroteModel != wroteImpl.isSome || (wroteModel && wroteImpl != some wroteModelOrd) then
+              some s!"after '{l}': writable task impl {repr wroteImpl} model {wroteModel} (socket {wroteModelOrd})"
+            else none
+          let c := if c.corrFail.isNone then { c with corrFail := corr } else c
+          (
             -- queued sends: one is consumed by a writable task; re-arm if more are queued
             let (m'', arm') : St × List (Nat × Nat) := match wroteImpl with
               | some i =>
@@ -232,7 +236,7 @@ partial def go (c : CSt) : List String → Verdict
             let onev' : List (Nat × Nat) := match ranOn with | some i => c.onev.filter (fun x => x.1 ≠ i) | none => c.onev
             let tags := (if mode == ["thread"] then ["step.thread"] else []) ++
                         (if destroyed.isEmpty then [] else ["handler.destroys"]) ++ [tag] ++ c.tags
-            go { c with m := m'', arm := arm', onev := onev', tags := tags } rest'
+            go { c with m := m'', arm := arm', onev := onev', tags := tags } rest')
       | [op, i] =>
         let i := i.toNat?.getD 0
         if op = "close" ∨ op = "rst" then
